@@ -584,6 +584,81 @@ fn ensure_reindexed(cx: &mut Ctx, w: &mut World) {
     check_ids(cx, w, "after re-index");
 }
 
+/// idempotent re-index after a load (what a recovery scan that tolerates `AlreadyExists` does): documents the loaded index
+/// already holds with their current vector are re-offered with `insert` (refused: `AlreadyExists` — so the insert path that
+/// clears a tombstone does NOT run), documents it holds with another vector are replaced, missing ones inserted, strays removed
+fn reindex_idempotent(cx: &mut Ctx, w: &mut World) {
+    if !w.loaded_mode {
+        return;
+    }
+    let g = w.extract(cx.rt).0;
+    let strays: Vec<u64> = g.keys().copied().filter(|i| !w.live.contains_key(i)).collect();
+    for id in strays {
+        let now = w.tick();
+        w.index.remove(id, now);
+    }
+    let live: Vec<(u64, Vec<f32>)> = w.live.iter().map(|(i, v)| (*i, v.clone())).collect();
+    for (id, v) in live {
+        let same = g.get(&id).is_some_and(|n| n.vec.iter().map(|x| x.to_f32()).collect::<Vec<f32>>() == v);
+        let now = w.tick();
+        if g.contains_key(&id) && !same {
+            w.index.remove(id, now);
+        }
+        match w.index.insert_f32(id, v, now) {
+            Ok(()) => {
+                if same {
+                    cx.oracle_fail("reindex-insert", "insert of an id the loaded index holds was accepted", "AlreadyExists", "ok", None);
+                }
+            }
+            Err(e) => {
+                if !same || !matches!(e, HnswError::AlreadyExists { .. }) {
+                    cx.oracle_fail("reindex-insert", "idempotent re-insert failed after load", "ok / AlreadyExists", &err_str(&e), None);
+                }
+                if cx.report {
+                    cx.rep.hit("reindexi:already-exists");
+                }
+            }
+        }
+    }
+    if cx.report {
+        let stale: Vec<u64> = w.index.removed_node_ids().into_iter().filter(|i| w.live.contains_key(i)).collect();
+        if !stale.is_empty() {
+            cx.rep.hit("reindexi:stale-tombstone-of-live-id");
+        }
+    }
+    w.loaded_mode = false;
+    w.invalidate();
+    check_ids(cx, w, "after an idempotent re-index");
+}
+
+/// purge must never delete the blob of an id the index holds, whatever the tombstone set says
+fn check_purge(cx: &mut Ctx, w: &World, ws: &[W]) {
+    let ids: BTreeSet<u64> = w.index.node_ids().into_iter().collect();
+    let bad: Vec<u64> = ws.iter().filter_map(|x| if let W::Del(i) = x { Some(*i) } else { None }).filter(|i| ids.contains(i)).collect();
+    if !bad.is_empty() {
+        cx.oracle_fail("purge-deleted-live-blob", "purge_removed_nodes deleted the blob of an id that is in the index", "no live id among the deletions", &format!("{bad:?}"), None);
+    }
+}
+
+/// after a round trip: every live document is found by its own vector (measured: the search is approximate)
+fn self_queries(cx: &mut Ctx, w: &mut World) {
+    if !cx.report {
+        return;
+    }
+    let live: Vec<(u64, Vec<f32>)> = w.live.iter().take(12).map(|(i, v)| (*i, v.clone())).collect();
+    for (id, v) in live {
+        match w.index.search_f32(&v, 3) {
+            Ok(r) if r.iter().any(|(i, _)| *i == id) => cx.rep.hit("self-query:hit"),
+            Ok(r) => {
+                // another document with the same vector is as good a hit
+                let dup = r.iter().any(|(i, _)| w.live.get(i) == Some(&v));
+                cx.rep.hit(if dup { "self-query:hit-by-duplicate" } else { "self-query:miss" })
+            }
+            Err(_) => cx.rep.hit("self-query:error"),
+        }
+    }
+}
+
 fn check_ids(cx: &mut Ctx, w: &mut World, when: &str) {
     let ids: BTreeSet<u64> = w.index.node_ids().into_iter().collect();
     let want: BTreeSet<u64> = w.live.keys().copied().collect();
@@ -704,6 +779,7 @@ fn step(cx: &mut Ctx, w: &mut World, op: &str, t: &[&str]) {
                     w.invalidate();
                     compare_after_flush(cx, sent, w);
                     check_write_order(cx, &ws);
+                    check_purge(cx, w, &ws);
                     // after a complete, quiescent flush the durable objects ARE the in-memory index
                     let bad = crate::window::stale_blobs(w, cx.rt);
                     if !bad.is_empty() {
@@ -722,6 +798,7 @@ fn step(cx: &mut Ctx, w: &mut World, op: &str, t: &[&str]) {
                     compare_writes(cx, sent, &ws);
                     w.invalidate();
                     compare_after_flush(cx, sent, w);
+                    check_purge(cx, w, &ws);
                     check_write_order(cx, &ws)
                 }
                 Err(e) => {
@@ -743,6 +820,7 @@ fn step(cx: &mut Ctx, w: &mut World, op: &str, t: &[&str]) {
                         cx.oracle_fail("roundtrip-graph", "flush + load_all changed the graph", "identical node map", "different node map", None);
                     }
                     check_ids(cx, w, "after a round trip");
+                    self_queries(cx, w);
                     check_load_model(cx, &d, Some(w));
                 }
                 Err(e) => cx.oracle_fail("load-error", "load_all failed after a complete flush", "ok", &e, None),
@@ -782,8 +860,9 @@ fn step(cx: &mut Ctx, w: &mut World, op: &str, t: &[&str]) {
                 Err(e) => cx.oracle_fail("load-error", "load_all failed on the state left by an interrupted flush", "ok", &format!("cut={cut} of {:?}: {e}", ws.iter().map(|x| x.tag()).collect::<Vec<_>>()), None),
             }
         }
-        "flushw" | "crashw" | "flushl" => window_op(cx, w, t),
+        "flushw" | "crashw" | "flushl" | "crashl" => window_op(cx, w, t),
         "reindex" => ensure_reindexed(cx, w),
+        "reindexi" => reindex_idempotent(cx, w),
         "q" | "qb" | "qx" => query(cx, w, op, t),
         _ => {}
     }
@@ -816,13 +895,13 @@ pub fn durable_string(d: &Durable, dim: usize) -> String {
 fn window_op(cx: &mut Ctx, w: &mut World, t: &[&str]) {
     use crate::window::*;
     ensure_reindexed(cx, w);
-    let crash = t[0] == "crashw";
+    let crash = t[0] == "crashw" || t[0] == "crashl";
     let (cut, hooks_s) = if crash { (t.get(1).and_then(|c| c.parse::<usize>().ok()), t.get(2)) } else { (None, t.get(1)) };
     if crash && cut.is_none() {
         return;
     }
     let Some(hooks) = hooks_s.and_then(|s| parse_hooks(s)) else { return };
-    let legacy = t[0] == "flushl";
+    let legacy = t[0] == "flushl" || t[0] == "crashl";
     let mut model_on = false;
     if !crash
         && !legacy
